@@ -236,10 +236,10 @@ theorem bound_run (S : Sem) (w : List Op) (st : State)
 
 /-! ## the two semantics the theorems are about -/
 
-theorem impl_exact : Exact Impl clean :=
-  ⟨fun sp b h => wf_cmdDo sp b h, fun sp b h hc => undo_cmdDo sp b h hc⟩
+theorem impl_exact : Exact Impl (fun _ _ => true) :=
+  ⟨fun sp b h => wf_cmdDo sp b h, fun sp b h _ => undo_cmdDo sp b h⟩
 
-theorem ideal_exact : Exact Ideal (fun _ _ => true) :=
-  ⟨fun sp b h => wf_ideal_cmdDo sp b h, fun sp b h _ => ideal_undo_cmdDo sp b h⟩
+theorem pre_exact : Exact PreF4b clean :=
+  ⟨fun sp b h => wf_pre_cmdDo sp b h, fun sp b h hc => pre_undo_cmdDo sp b h hc⟩
 
 end GlueVerif.Lemmas.C13
